@@ -247,7 +247,9 @@ impl Driver for C11 {
         }
         let nm = names();
         for case in 0..60 {
-            let text = if case % 2 == 0 {
+            let text = if case % 3 == 2 {
+                crate::gen_data::gen_prog(&mut rng).0.text_p()
+            } else if case % 2 == 0 {
                 let toks = random_tokens(&mut rng, 8);
                 let symbols = rng.gen_bool(0.5);
                 program_for(&render(&toks, &nm, symbols))
@@ -267,7 +269,7 @@ impl Driver for C11 {
             out.eval();
             match check_format(&text, &mut rng, out) {
                 Ok(true) => {
-                    out.tag(if case % 2 == 0 { "expression-corpus-preserved" } else { "model-text-preserved" });
+                    out.tag(if case % 3 == 2 { "data-driven-program-preserved" } else if case % 2 == 0 { "expression-corpus-preserved" } else { "model-text-preserved" });
                     out.nontrivial(hash_str(&text));
                     if case == 1 && out.unit < 4 {
                         out.sample(json!({"original": text, "formatted": format_text(&text).and_then(|r| r.ok())}));
@@ -279,15 +281,16 @@ impl Driver for C11 {
         }
     }
     fn rule(&self) -> String {
-        "(exhaustive at every run, unit 0) every (parent operator, child operator, side) triple of the 9 binary operators with a parenthesised child, in keyword and symbol spelling (324 programs), plus 21 programs for unary operators over parenthesised children and negative constants, implicit products and blocks; (random) expression texts of the C09 corpus embedded as objectives, and whole model texts from G-text (random layout, aliases, implicit multiplication, where-constants, named constraints, comments, compound names). For every text T that parses: format(T) parses and formats to itself; type_check and parse_and_transform succeed or fail alike; the two compiled models have identical declarations, constraint names and relations, and every expression pair evaluates identically (exact evaluator) at 24 assignments over {0..3}; the linear models are compared row by row where both exist. non-trivial = text whose formatted version compiled to a model of equal meaning".into()
+        "(exhaustive at every run, unit 0) every (parent operator, child operator, side) triple of the 9 binary operators with a parenthesised child, in keyword and symbol spelling (324 programs), plus 21 programs for unary operators over parenthesised children and negative constants, implicit products and blocks; (random) expression texts of the C09 corpus embedded as objectives, and whole model texts from G-text (random layout, aliases, implicit multiplication, where-constants, named constraints, comments, compound names), and data-driven programs from G-data (arrays incl. mixed integer/decimal and nested ones, graphs, ranges, enumerate/zip/set functions, scoped blocks, for-quantified constraints and declarations). For every text T that parses: format(T) parses and formats to itself; type_check and parse_and_transform succeed or fail alike; the two compiled models have identical declarations, constraint names and relations, and every expression pair evaluates identically (exact evaluator) at 24 assignments over {0..3}; the linear models are compared row by row where both exist. non-trivial = text whose formatted version compiled to a model of equal meaning".into()
     }
     fn thresholds(&self, tier: Tier) -> Thresholds {
         let s = tier.pick(1, 10);
         Thresholds {
             min_tags: vec![
                 ("formats-to-itself", 10000 * s),
-                ("expression-corpus-preserved", 5000 * s),
-                ("model-text-preserved", 4000 * s),
+                ("expression-corpus-preserved", 3000 * s),
+                ("model-text-preserved", 2500 * s),
+                ("data-driven-program-preserved", 3000 * s),
                 ("triple-preserved", 200),
             ],
             min_nontrivial: 9000 * s,
